@@ -258,7 +258,9 @@ def generate_meta_urls():
         for _ in range(4):
             tops |= {urljoin(t, r) for t in list(tops) for r in refs}
         tops = sorted(tops)
-        joins = [(t, r, urljoin(t, r)) for t in tops for r in refs + [base]]
+        # second arguments: the reference strings, the base, and every full URL (push_scope(url) joins
+        # the URL returned by resolve() onto the current scope)
+        joins = [(t, r, urljoin(t, r)) for t in tops for r in sorted(set(refs + [base] + tops))]
         urls = sorted(set(j[2] for j in joins) | set(tops))
         defr = [(u,) + tuple(urldefrag(u)) for u in urls]
         norms = sorted(set(d[1] for d in defr) | set(all_ids) | {base})
